@@ -287,7 +287,8 @@ int
 verif_epoll_ctl(int epfd, int op, int fd, struct epoll_event *ev) {
 	int e;
 
-	if (0 != (e = fault_check(F_EPOLL_CTL))) {
+	/* only registrations can fail for lack of resources; the kernel does not refuse to delete an existing one */
+	if (EPOLL_CTL_DEL != op && 0 != (e = fault_check(F_EPOLL_CTL))) {
 		errno = e;
 		return (-1);
 	}
